@@ -370,19 +370,63 @@ def run(ctx):
              "_register_line (raised to an integer-looking name greater than "
              "it, never lowered) and by unused_name (+1); unused_name returns "
              "the new value as a string", floor=6)
-    w = writers_of_attr(repo, "_max_int_name")
-    okw = {"gfa.Gfa.__init__", "lines.creators.Creators._register_line",
-           "lines.collections.Collections.unused_name"}
+    # every store to the counter has one of three shapes: the initial 0 in
+    # Gfa.__init__, an increment by a positive constant, or an assignment of
+    # X dominated by the test `X > self._max_int_name` (it can only grow)
     ctx.instance(R)
-    ok = {f.short for f in w} <= okw and len(w) == 3
+    bad = []
+    n_stores = 0
+    for f in sorted(repo.functions.values(), key=lambda f: f.qualname):
+        for n in walk_no_nested(f.node):
+            if not (isinstance(n, ast.Attribute) and
+                    n.attr == "_max_int_name" and
+                    isinstance(n.ctx, (ast.Store, ast.Del))):
+                continue
+            n_stores += 1
+            st = n
+            path = []
+            while not isinstance(st, ast.stmt):
+                st = st._parent
+            anc = getattr(st, "_parent", None)
+            while anc is not None and not isinstance(
+                    anc, (ast.FunctionDef, ast.AsyncFunctionDef)):
+                path.append(anc)
+                anc = getattr(anc, "_parent", None)
+            ok_store = False
+            if isinstance(st, ast.AugAssign) and isinstance(st.op, ast.Add) \
+                    and isinstance(st.value, ast.Constant) and \
+                    isinstance(st.value.value, int) and st.value.value > 0:
+                ok_store = True
+            elif isinstance(st, ast.Assign) and len(st.targets) == 1:
+                val = st.value
+                if f.name == "__init__" and isinstance(val, ast.Constant) \
+                        and val.value == 0:
+                    ok_store = True
+                else:
+                    me = unparse(st.targets[0])
+                    v = unparse(val)
+                    for a in path:
+                        if isinstance(a, ast.If) and st in ast.walk(
+                                ast.Module(body=a.body, type_ignores=[])):
+                            conj = a.test.values if isinstance(
+                                a.test, ast.BoolOp) and isinstance(
+                                a.test.op, ast.And) else [a.test]
+                            for c in conj:
+                                t = unparse(c)
+                                if t in ("%s > %s" % (v, me),
+                                         "%s < %s" % (me, v)):
+                                    ok_store = True
+            if not ok_store:
+                bad.append("%s: %s" % (f.short, unparse(st).split("\n")[0]))
+    ok = not bad and n_stores >= 3
     ctx.oblige(ok)
     if not ok:
-        extra = {f.short: v for f, v in w.items() if f.short not in okw}
         ctx.violation(R, "writers of Gfa._max_int_name",
-                      ",".join(sorted(extra)) or "missing writer",
-                      "the fresh-name counter is written by %r; lowering it "
-                      "lets unused_name() return an identifier that is in "
-                      "use" % (extra or sorted(f.short for f in w)))
+                      "; ".join(bad) or "fewer than three stores",
+                      "a store to the fresh-name counter that is neither the "
+                      "initial 0, an increment, nor guarded by `new > "
+                      "counter`: lowering the counter lets unused_name() "
+                      "return an identifier that is in use")
     f_reg = gfacls.find_method("_register_line")
     seg = repo.cls("line.segment.GFA1")
 
